@@ -36,4 +36,7 @@ def run(rep, fb, tier):
     _lw.rule_ctor_roles(rep, fb)
     from ..rules import lints as _lv
     _lv.rule_call_roles(rep, fb)
+    from ..rules import lints2 as _l2
+    _l2.rule_record_rebuild_lookup(rep, fb)
+    _l2.rule_minmax_direction(rep, fb)
     rep.units = fb.units
